@@ -336,7 +336,7 @@ func (ss *Sorts) header(strSMT bool, heapSorts []string) string {
 	}
 	b.WriteString("(declare-datatypes ((Opaque 0)) (((unit))))\n")
 	b.WriteString("(declare-datatypes ((Ref 0)) (((null) (obj (oid Int)) (sub (spar Ref) (sfld Int)))))\n")
-	b.WriteString("(declare-fun rootid (Ref) Int)\n(assert (= (rootid null) (- 1)))\n(declare-fun dyntype (Ref) Int)\n")
+	b.WriteString("(declare-fun rootid (Ref) Int)\n(assert (= (rootid null) (- 1)))\n(declare-fun dyntype (Ref) Int)\n(declare-fun basetype (Int) Int)\n")
 	b.WriteString("(declare-datatypes ((Iface 0)) (((mkIface (tag Int) (val Ref)))))\n")
 	b.WriteString("(declare-datatypes ((Slice 0)) (((mkSlice (sbase Int) (soff Int) (slen Int) (scap Int)))))\n")
 	for _, si := range ss.order {
